@@ -251,3 +251,124 @@ theorem C05_eq_hash (ops : FieldOps α) (it : Item) (k k' : Nat) (fa fb : List (
   refine ⟨h.1.1, fun i hi => h.2.2 i (relevantIdx_hash_subset d .partialEq (by simp [cmpTraits]) i hi)⟩
 
 end DW
+
+namespace DW
+
+variable {α : Type}
+
+/-- The part of std's `PartialOrd` contract that transitivity needs: `<` is
+transitive and `==` (as `Some(Equal)`) is a congruence for `partial_cmp`. -/
+structure LawfulOrd (ops : FieldOps α) : Prop where
+  lt_trans : ∀ x y z, ops.pcmp x y = some .lt → ops.pcmp y z = some .lt → ops.pcmp x z = some .lt
+  eq_left : ∀ x y z, ops.pcmp x y = some .eq → ops.pcmp x z = ops.pcmp y z
+  eq_right : ∀ x y z, ops.pcmp y z = some .eq → ops.pcmp x z = ops.pcmp x y
+
+theorem lexPartial_lt_trans (ops : FieldOps α) (hl : LawfulOrd ops) (fa fb fc : List (Val α))
+    (hfa : ∀ v ∈ fa, ∃ a, v = .leaf a) (hfb : ∀ v ∈ fb, ∃ a, v = .leaf a) (hfc : ∀ v ∈ fc, ∃ a, v = .leaf a)
+    (is : List Nat) (his : ∀ i ∈ is, i < fa.length ∧ i < fb.length ∧ i < fc.length)
+    (h1 : lexPartial ops fa fb is = some .lt) (h2 : lexPartial ops fb fc is = some .lt) :
+    lexPartial ops fa fc is = some .lt := by
+  induction is with
+  | nil => simp [lexPartial] at h1
+  | cons i is ih =>
+    have hi := his i (by simp)
+    obtain ⟨x, hx⟩ := hfa fa[i] (List.getElem_mem _)
+    obtain ⟨y, hy⟩ := hfb fb[i] (List.getElem_mem _)
+    obtain ⟨z, hz⟩ := hfc fc[i] (List.getElem_mem _)
+    have e1 : at2 fa fb i none ops.pcmp = ops.pcmp x y := by
+      simp [at2, List.getElem?_eq_getElem hi.1, List.getElem?_eq_getElem hi.2.1, hx, hy]
+    have e2 : at2 fb fc i none ops.pcmp = ops.pcmp y z := by
+      simp [at2, List.getElem?_eq_getElem hi.2.1, List.getElem?_eq_getElem hi.2.2, hy, hz]
+    have e3 : at2 fa fc i none ops.pcmp = ops.pcmp x z := by
+      simp [at2, List.getElem?_eq_getElem hi.1, List.getElem?_eq_getElem hi.2.2, hx, hz]
+    have ih' := ih (fun j hj => his j (by simp [hj]))
+    simp only [lexPartial, e1, e2, e3] at h1 h2 ⊢
+    cases hp1 : ops.pcmp x y with
+    | none => simp [hp1] at h1
+    | some o1 =>
+      cases hp2 : ops.pcmp y z with
+      | none => simp [hp2] at h2
+      | some o2 =>
+        rw [hp1] at h1
+        rw [hp2] at h2
+        cases o1 with
+        | gt => simp at h1
+        | lt =>
+          cases o2 with
+          | gt => simp at h2
+          | lt => rw [hl.lt_trans x y z hp1 hp2]
+          | eq => rw [hl.eq_right x y z hp2, hp1]
+        | eq =>
+          cases o2 with
+          | gt => simp at h2
+          | lt => rw [hl.eq_left x y z hp1, hp2]
+          | eq =>
+            rw [hl.eq_left x y z hp1, hp2]
+            exact ih' h1 h2
+
+/-- Transitivity of `<` on the derived `partial_cmp` (std contract of `PartialOrd`),
+for lawful field impls and any accepted skip / incomparable setup. -/
+theorem C05_lt_trans (ops : FieldOps α) (hl : LawfulOrd ops) (ti : TypeInfo) (it : Item)
+    (a b c : Val α) (ha : WfVal it a) (hb : WfVal it b) (hc : WfVal it c)
+    (h1 : specPartialCmp ops ti it a b = some .lt) (h2 : specPartialCmp ops ti it b c = some .lt) :
+    specPartialCmp ops ti it a c = some .lt := by
+  cases a with
+  | adt k fa =>
+    cases b with
+    | adt k' fb =>
+      cases c with
+      | adt k'' fc =>
+        obtain ⟨da, hda, hla, hfa⟩ := ha
+        obtain ⟨db, hdb, hlb, hfb⟩ := hb
+        obtain ⟨dc, hdc, hlc, hfc⟩ := hc
+        simp only [specPartialCmp, hda, hdb, hdc] at h1 h2 ⊢
+        by_cases hinc1 : (it.markedIncomparable || da.incomparable || db.incomparable) = true
+        · simp [hinc1] at h1
+        by_cases hinc2 : (it.markedIncomparable || db.incomparable || dc.incomparable) = true
+        · simp [hinc2] at h2
+        have hinc3 : (it.markedIncomparable || da.incomparable || dc.incomparable) = false := by
+          simp only [Bool.or_eq_true, not_or, Bool.not_eq_true] at hinc1 hinc2
+          simp [hinc1.1.1, hinc1.1.2, hinc2.2]
+        simp only [hinc1, hinc2, hinc3, Bool.false_eq_true, ↓reduceIte] at h1 h2 ⊢
+        by_cases hk1 : k = k'
+        · subst hk1
+          have hdab : db = da := by rw [hda] at hdb; exact (Option.some.inj hdb).symm
+          subst hdab
+          by_cases hk2 : k = k''
+          · subst hk2
+            have hdcb : dc = db := by rw [hda] at hdc; exact (Option.some.inj hdc).symm
+            subst hdcb
+            simp only [↓reduceIte] at h1 h2 ⊢
+            exact lexPartial_lt_trans ops hl fa fb fc hfa hfb hfc _
+              (fun i hi => by have := relevantIdx_lt' dc .partialOrd i hi; omega) h1 h2
+          · simp only [hk2, ↓reduceIte] at h2 ⊢
+            exact h2
+        · by_cases hk2 : k' = k''
+          · subst hk2
+            simp only [hk1, ↓reduceIte] at h1 ⊢
+            exact h1
+          · simp only [hk1, hk2, ↓reduceIte, Option.some.injEq] at h1 h2
+            have l1 : ti.discr k < ti.discr k' := Int.compare_eq_lt.mp h1
+            have l2 : ti.discr k' < ti.discr k'' := Int.compare_eq_lt.mp h2
+            have hk3 : ¬ k = k'' := by
+              intro h; subst h; omega
+            simp only [hk3, ↓reduceIte, Option.some.injEq]
+            exact Int.compare_eq_lt.mpr (by omega)
+      | _ => exact hc.elim
+    | _ => exact hb.elim
+  | _ => exact ha.elim
+
+/-- The premises of `C05_lt_trans` are satisfiable: a two-field struct over `Nat` leaves. -/
+example : LawfulOrd (α := Nat) ⟨fun x y => x == y, fun x y => some (compare x y), compare, id, fun _ _ => 0⟩ := by
+  constructor
+  · intro x y z h1 h2
+    simp only [Option.some.injEq] at h1 h2 ⊢
+    exact Nat.compare_eq_lt.mpr (by have := Nat.compare_eq_lt.mp h1; have := Nat.compare_eq_lt.mp h2; omega)
+  · intro x y z h
+    simp only [Option.some.injEq] at h
+    have := Nat.compare_eq_eq.mp h; subst this; rfl
+  · intro x y z h
+    simp only [Option.some.injEq] at h
+    have := Nat.compare_eq_eq.mp h; subst this; rfl
+
+end DW
